@@ -184,6 +184,25 @@ package packfile
 //gvc:  ensures consumed: err == nil ==> deltaBuf.#pos == deltaBuf.#n
 //gvc:end
 
+// ReaderFromDelta (lazy streaming applier; its goroutine is verified from the
+// state at the go statement). Property C06, "all appliers agree": every copy
+// command copies the bytes base[offset : offset+sz] -- the buffered base reader
+// stands exactly at offset when the copy starts (call-site obligation on the
+// first CopyBufferPool), which rests on the loop invariant that the position
+// counter basePos equals the reader's real position, including after the base
+// was reopened for a backward seek.
+//gvc:func ReaderFromDelta
+//gvc:  props C06
+//gvc:  theory int
+//gvc:  opt coarse
+//gvc:  opt frame args
+//gvc:  requires nn: base != nil && deltaRC != nil
+//gvc:  loop 1 invariant track: baseBuf != nil && basePos == baseBuf.#pos && baseBuf.#data == base.#content && baseBuf != deltaBuf
+//gvc:  loop 2 invariant seek: baseBuf != nil && basePos == baseBuf.#pos && baseBuf.#pos + discard == offset && baseBuf.#data == base.#content && baseBuf != deltaBuf
+//gvc:  loop 3 invariant seek: baseBuf != nil && basePos == baseBuf.#pos && baseBuf.#pos + discard == offset && baseBuf.#data == base.#content && baseBuf != deltaBuf
+//gvc:  sink CopyBufferPool#1 requires source: field(arg1, "io.LimitedReader.R") == baseBuf && baseBuf.#pos == offset && field(arg1, "io.LimitedReader.N") == sz && baseBuf.#data == base.#content
+//gvc:end
+
 // Copy instruction encoder (round trip with the decoders' spec, git delta.h).
 //gvc:func encodeCopyOperation
 //gvc:  props C06
